@@ -605,3 +605,37 @@ def beta_local_closures(blk):
         i += 1
     blk["stmts"] = stmts
     return changed
+
+
+
+# ------------------------------------------------------------------ match on integer literals -> if chain
+
+def match_ints(n):
+    """`match x { 0 => A, 1 => B, w => C }` (side-effect-free scrutinee, integer literal arms, last arm a binding or `_`)
+       ==  `if x == 0 { A } else if x == 1 { B } else { let w = x; C }`"""
+    e = n.get("e")
+    arms = n.get("arms", [])
+    if not isinstance(e, dict) or len(arms) < 2 or any(a.get("guard") is not None for a in arms) or not _is_pure(e):
+        return None
+    ty = e.get("ty", "")
+    if ty not in ("u8", "u16", "u32", "u64", "u128", "usize", "i8", "i16", "i32", "i64", "i128", "isize"):
+        return None
+    last = arms[-1]["pat"]
+    if last.get("k") not in ("pwild", "pbind") or last.get("sub"):
+        return None
+    for a in arms[:-1]:
+        p = a["pat"]
+        if p.get("k") != "plit" or p.get("lk") == "bool" or not isinstance(p.get("v"), int):
+            return None
+    tail = arms[-1]["body"]
+    if last.get("k") == "pbind":
+        tb = tail if tail.get("k") == "block" else _blk(tail, n.get("sp"), n.get("ty"))
+        tail = dict(tb, stmts=[{"k": "let", "pat": last, "init": copy.deepcopy(e), "sp": last.get("sp")}] + list(tb.get("stmts", [])))
+    chain = tail if tail.get("k") == "block" else _blk(tail, n.get("sp"), n.get("ty"))
+    for a in reversed(arms[:-1]):
+        cond = {"k": "bin", "op": "==", "ty": "bool", "sp": a["pat"].get("sp") or n.get("sp"), "l": copy.deepcopy(e),
+                "r": {"k": "lit", "lk": "int", "v": a["pat"]["v"], "ty": ty, "sp": a["pat"].get("sp")}}
+        chain = _blk({"k": "if", "ty": n.get("ty"), "sp": n.get("sp"), "cond": cond, "from_int_match": True,
+                      "then": a["body"] if a["body"].get("k") == "block" else _blk(a["body"], n.get("sp"), n.get("ty")),
+                      "else": chain}, n.get("sp"), n.get("ty"))
+    return chain["expr"]
